@@ -418,3 +418,6 @@ Proof.
     change (In (2, w) [(0,1);(1,0);(1,2)]) in I. simpl in I. intuition congruence. }
   specialize (G 2 1 P eq_refl). discriminate.
 Qed.
+(** fuel: the closure of complex 0 in the example saturates within the fuel 3 + 1 *)
+Example ex_fuel : saturate (und_nbr ex_arcs) 4 [nn 0] = Some [2; 1; 0]%N /\ saturate (und_nbr ex_arcs) 1 [nn 0] = None.
+Proof. split; vm_compute; reflexivity. Qed.
